@@ -213,7 +213,13 @@ nodeLoop:
 			}
 			if i == keyLength && keyLength == labelLength {
 				// update existing node
-				return edge.target.doUpdate(bt, fullKey, vals, params, metadata), false
+				target := edge.target
+				isNew := target.data == nil
+				if isNew {
+					// an interior node made by an earlier split holds this key from now on
+					target.key = fullKey
+				}
+				return target.doUpdate(bt, fullKey, vals, params, metadata), isNew
 			} else if i == labelLength && labelLength < keyLength {
 				// descend
 				n = edge.target
